@@ -718,7 +718,9 @@ def oracle_be_unconverged_linear(c, out):
                 if r_ != col and M[r_][col] != 0:
                     f = M[r_][col] / M[col][col]
                     M[r_] = [x - f * y for x, y in zip(M[r_], M[col])]
-        exact = [float(M[i][ns] / M[i][i]) for i in range(ns)]
+        # "... followed only by the documented clipping of negative iterates to zero" (a mechanism with net production can
+        # make I - H A indefinite for large H)
+        exact = [max(float(M[i][ns] / M[i][i]), 0.0) for i in range(ns)]
         got = s["y"][cidx * ns:(cidx + 1) * ns]
         scale = max(abs(v) for v in exact + [1e-300])
         for i in range(ns):
